@@ -106,6 +106,10 @@ fn recognize_http(method: &str, path: &str) -> Result<Proxy, anyhow::Error> {
 }
 
 fn domain(host: &str, port: u16) -> Result<Address, anyhow::Error> {
+    // the wire formats carry the name length in one byte
+    if host.is_empty() || host.len() > u8::MAX as usize {
+        bail!("unsupported host name length: {}", host.len());
+    }
     Ok(Address::Domain(host.to_owned(), port))
 }
 
